@@ -3,7 +3,7 @@ from sa import cfg as C
 from sa import paths as P
 from . import common as K
 
-CONFIGS_QUICK = ["A"]
+CONFIGS_QUICK = ["A", "E"]
 CONFIGS_THOROUGH = ["A", "B", "C", "D", "E"]
 
 EXPLANATION = (
@@ -28,6 +28,7 @@ RULES = {
     "C04-N2": "unit table rows: multiplier = 488.2 prefix factor x base factor, unit tag of the base; special rows; unique names",
     "C04-N3": "token class -> radix wiring identical in all decoders; lexer letter -> class -> digit recogniser",
     "C04-N4": "converter wiring: width/sign -> strtol/strtoul/strtoll/strtoull/strtof/strtod on the token start; consumed length returned",
+    "C04-N6": "(builds without strncasecmp) the library's own comparison treats two bytes as equal exactly when they are equal after folding A-Z onto a-z",
     "C04-N5": "unit lookup is length-exact and case-insensitive; multiplier and unit of the found row are applied",
 }
 
@@ -269,6 +270,21 @@ def rule_n4(ck, prog, spec):
             ck.holds("C04-N4", st, K.loc(f, cs[0]), "%s(parameter->ptr, value)" % conv)
         else:
             ck.violated("C04-N4", st, K.loc(f), "%s decodes decimal literals with %s" % (name, [c.get("callee") for c in cs]))
+        # the non-decimal arm goes through an integer decoder wide enough for the floating type's exact range
+        ints = [c for c in f.calls() if (c.get("callee") or "").startswith(("SCPI_ParamToUInt", "SCPI_ParamToInt"))]
+        st = K.site(f, "nondecimal-width", 0)
+        if not ints:
+            ck.anchor_lost("C04-N4", "integer decoder of the non-decimal arm of %s" % name)
+        elif name == "SCPI_ParamToDouble":
+            narrow = [c for c in ints if not c["callee"].endswith("64")]
+            if narrow:
+                ck.violated("C04-N4", st, K.loc(f, narrow[0]),
+                            "SCPI_ParamToDouble decodes #H/#Q/#B literals through %s: literals above 2^32 (exactly "
+                            "representable in a double up to 2^53) are no longer delivered exactly" % narrow[0]["callee"])
+            else:
+                ck.holds("C04-N4", st, K.loc(f, ints[0]), "non-decimal literals decoded with %s" % ints[0]["callee"])
+        else:
+            ck.holds("C04-N4", st, K.loc(f, ints[0]), "non-decimal literals decoded with %s" % ints[0]["callee"], nontrivial=False)
 
 
 def rule_n5(ck, prog, S):
@@ -330,6 +346,7 @@ def rule_n5(ck, prog, S):
 
 def run(ck, fb, tier):
     spec = K.load_spec("units_488_2.json")
+    seen_fold = False
     for cfg in fb.configs:
         ck.config = cfg
         prog = fb[cfg]
@@ -339,6 +356,10 @@ def run(ck, fb, tier):
         rule_n3(ck, prog, spec, S)
         rule_n4(ck, prog, spec)
         rule_n5(ck, prog, S)
+        if K.casefold_rule(ck, prog, "C04-N6", tier):
+            seen_fold = True
+    if "E" in fb.configs and not seen_fold:
+        ck.anchor_lost("C04-N6", "OUR_strncasecmp is not compiled in the -std=c89 configuration")
     ck.trust("spec/units_488_2.json (IEEE 488.2 tables 7-1 and 7-2)", "libc strto* convert correctly")
 
 
